@@ -597,11 +597,14 @@ class Scene(Geometry3D):
             if not hasattr(geometry, "triangles"):
                 continue
             # append the (n, 3, 3) triangles to a sequence
-            triangles.append(
-                transformations.transform_points(
-                    geometry.triangles.copy().reshape((-1, 3)), matrix=transform
-                )
-            )
+            moved = transformations.transform_points(
+                geometry.triangles.copy().reshape((-1, 3)), matrix=transform
+            ).reshape((-1, 3, 3))
+            if np.linalg.det(transform[:3, :3]) < 0.0:
+                # a mirrored instance has to be re-wound
+                # for its normals to keep pointing outward
+                moved = moved[:, ::-1]
+            triangles.append(moved.reshape((-1, 3)))
             # save the node names for each triangle
             triangles_node.append(np.tile(node_name, len(geometry.triangles)))
         # save the resulting nodes to the cache
